@@ -18,7 +18,8 @@ Expected(e) ==
       [] e.fn = "Reply" -> Reply(e["in"])
       [] e.fn = "Request" -> Request(e["in"], IF e.out.ok THEN e.out.v.xid ELSE <<0, 0, 0>>)   \* fresh transaction id
 Agree(e) == /\ ~Has(e.out, "panic")
-            /\ LET x == Expected(e) IN e.out.ok = x.ok /\ (x.ok => e.out.v = x.v)
+            /\ IF e.fn = "Wire" THEN e.out.ok /\ Same(e.out.v, e["in"])          \* a chain survives a trip over the wire
+               ELSE LET x == Expected(e) IN e.out.ok = x.ok /\ (x.ok => e.out.v = x.v)
 
 ShardLo(k) == ((k - 1) * N) \div NShards + 1
 ShardHi(k) == (k * N) \div NShards
